@@ -11,10 +11,10 @@ package props
 // from the stored account fields), and after a successful delegation by V: balance(V) >= unvested.
 
 import (
-	"os"
 	"encoding/json"
 	"fmt"
 	"math/big"
+	"os"
 	"testing"
 	"time"
 
@@ -121,6 +121,18 @@ func genC08(t *rapid.T) C08Case {
 		}
 		c.Blocks = append(c.Blocks, b)
 	}
+	if nb >= 2 && rapid.IntRange(0, 2).Draw(t, "clawback-scenario") == 0 {
+		// the funder claws back (or adds a grant), and right afterwards the account tries to move one unit more than what
+		// the reference says is spendable, over two different paths
+		i := rapid.IntRange(0, nb-2).Draw(t, "cb-at")
+		first := rapid.SampledFrom([]string{"clawback", "clawback", "merge"}).Draw(t, "cb-first")
+		c.Blocks[i].Ops = append(c.Blocks[i].Ops, C08Op{K: first, Mode: "abs", Abs: "1000"})
+		c.Blocks[i+1].Dt = rapid.SampledFrom([]int64{1, 5, 30, 61}).Draw(t, "cb-dt")
+		c.Blocks[i+1].Ops = append([]C08Op{
+			{K: rapid.SampledFrom([]string{"send", "eth-send", "multisend"}).Draw(t, "cb-path1"), Mode: "spendable", Off: rapid.SampledFrom([]int64{1, 1, 2, 1000000}).Draw(t, "cb-off")},
+			{K: rapid.SampledFrom([]string{"send", "gov-deposit", "dao-fund"}).Draw(t, "cb-path2"), Mode: "spendable", Off: 0},
+		}, c.Blocks[i+1].Ops...)
+	}
 	return c
 }
 
@@ -130,12 +142,8 @@ func c08Locked(va *vestingtypes.ClawbackVestingAccount, now time.Time) (locked, 
 	lev, vev := eventsOf(start, fromPeriods(va.LockupPeriods)), eventsOf(start, fromPeriods(va.VestingPeriods))
 	orig := bi(refOf(va.OriginalVesting), chain.Denom)
 	t := now.Unix()
-	read := func(evs []refEvent) *big.Int {
-		if t >= va.EndTime {
-			return orig
-		}
-		return bi(stepAt(start, evs, t), chain.Denom)
-	}
+	// from the periods alone (the stored EndTime is derived data: a wrong EndTime must not be believed)
+	read := func(evs []refEvent) *big.Int { return bi(stepAt(start, evs, t), chain.Denom) }
 	unlocked, vested := read(lev), read(vev)
 	uv := unlocked
 	if vested.Cmp(uv) < 0 {
@@ -366,8 +374,13 @@ func runC08(st *ev.Stats, c C08Case) string {
 				if bal2.Cmp(unvested2) < 0 {
 					return fail("unvested-delegated:"+op.K, desc)
 				}
-			} else if bal2.Cmp(locked2) < 0 {
+			} else if bal2.Cmp(bal) < 0 && bal2.Cmp(locked2) < 0 {
+				// coins left the account and less than the locked amount remains. (Without an outflow nothing is
+				// required: a slash of delegated locked coins is a sanctioned loss, and a merge re-tracks the delegated
+				// amounts, after which "locked" can exceed a balance from which nothing was taken.)
 				return fail("locked-coins-left:"+op.K, desc)
+			} else if bal2.Cmp(bal) >= 0 && bal2.Cmp(locked2) < 0 {
+				st.Class("locked-exceeds-balance-without-outflow:" + op.K)
 			}
 		}
 		n.EndBlockCommit()
